@@ -1484,7 +1484,7 @@ fn random_session(r: &mut Rng, out: &mut dyn Write, max_cap: usize, nops: usize)
 }
 
 /// hand-written scenarios of the property text, for one container shape
-fn scripted(out: &mut dyn Write, kind: &str, cap: usize, len: usize) {
+fn scripted(out: &mut dyn Write, kind: &str, cap: usize, len: usize, lite: bool) {
     let room = if is_slicey(kind) { cap } else { cap - len.min(cap) };
     let mut s = |lines: &[String]| {
         new_line(out, kind, cap, len);
@@ -1502,7 +1502,8 @@ fn scripted(out: &mut dyn Write, kind: &str, cap: usize, len: usize) {
     // dropped without use; used and dropped without `initialized`
     s(&[l("open"), l("drop"), l("open"), w(room / 2, 1), l("drop"), l("open"), l("init")]);
     // capped views, including caps beyond the capacity
-    for c in [0, 1, room.saturating_sub(1), room, room + 1, room + 4, usize::MAX] {
+    let caps: Vec<usize> = if lite { vec![0, room, room + 1, usize::MAX] } else { vec![0, 1, room.saturating_sub(1), room, room + 1, room + 4, usize::MAX] };
+    for c in caps {
         s(&[format!("open {}", c), l("rem"), w(c.min(room), 1), w(1, 0x55), l("init")]);
         s(&[format!("open {} {}", room, c), l("rem"), w(1, 1), l("init")]);
         s(&[format!("open {} {}", c, room + 1), l("rem"), w(1, 1), l("drop")]);
@@ -1656,7 +1657,10 @@ impl D {
                 if miri && (kind == "sref" || kind == "raw") && cap == 0 {
                     continue;
                 }
-                scripted(out, kind, cap, len);
+                if miri && kind == "arr" && cap == 0 {
+                    continue;
+                }
+                scripted(out, kind, cap, len, miri);
             }
         }
         // 2. exhaustive op sequences (hash form)
